@@ -44,6 +44,7 @@ def crl_part(prop, tier, seed, bdir, wd, violations):
         res = list(ex.map(lambda j: runner.run_driver(bdir, j[0], j[1], 1800), jobs))
     good = []
     nval = nrev = nok = 0
+    nhs = [0]
     for (sp, tp, metas), r in zip(jobs, res):
         if r["rc"] != 0:
             rp = runner.save_replay(prop, "crash_" + os.path.basename(sp), open(sp).read().splitlines())
@@ -52,9 +53,13 @@ def crl_part(prop, tier, seed, bdir, wd, violations):
         out = []; k = 0
         for l in open(tp):
             d = json.loads(l)
-            if d.get("ev") in ("crl", "validate", "Reset") and d.get("tag") != "end":
+            if d.get("ev") == "state" and d.get("ep") == "c0":
+                # a handshake step: what the client concluded
+                d = dict(i=d["i"], ev="hsval", hc=int(d.get("hc", 0) == 1))
+            if d.get("ev") in ("crl", "validate", "hsval", "Reset") and d.get("tag") != "end":
                 if k >= len(metas): raise SystemExit("INFRA: more events than steps in %s" % tp)
                 d.update(metas[k]); k += 1
+                if d["ev"] == "hsval": nhs[0] += 1
                 if d["ev"] == "validate":
                     nval += 1; nrev += (-35 in d.get("st", [])); nok += (d.get("rcn", -1) >= 0 and all(x == 1 for x in d.get("st", [])))
             out.append(json.dumps(d))
@@ -74,8 +79,8 @@ def crl_part(prop, tier, seed, bdir, wd, violations):
             b = max([n for n in range(ln - 1) if src[n].startswith("reset ")] or [-1]) + 1
             rp = runner.save_replay(prop, "crl_%s_%d" % (os.path.basename(sp)[:-3], ln), src[b:ln])
             violations.append(("trace", "revocation history: step %r answered %s, not what MxCrl computes from the CRLs loaded so far" % (
-                d.get("chain") or d.get("crl"), "accepted" if (d.get("rcn", -1) >= 0 and all(x == 1 for x in d.get("st", [0]))) else ("revoked" if -35 in d.get("st", []) else "authd=%s rcn=%s st=%s" % (d.get("authd"), d.get("rcn"), d.get("st")))), rp))
-    st.update(crl_histories=len(H), crl_validations=nval, crl_validations_revoked=nrev, crl_validations_accepted=nok)
+                d.get("chain") or d.get("crl"), ("handshake %s" % ("completed" if d.get("hc") else "refused")) if d.get("ev") == "hsval" else "accepted" if (d.get("rcn", -1) >= 0 and all(x == 1 for x in d.get("st", [0]))) else ("revoked" if -35 in d.get("st", []) else "authd=%s rcn=%s st=%s" % (d.get("authd"), d.get("rcn"), d.get("st")))), rp))
+    st.update(crl_histories=len(H), crl_handshakes=nhs[0], crl_validations=nval, crl_validations_revoked=nrev, crl_validations_accepted=nok)
     return st
 
 def run(tier, seed):
